@@ -1,5 +1,6 @@
 (* C06 driver: one case per line
-     xf <path> <n> { op perfect trim gray crop cw cwset ch chset cx cxset cy cyset }*n | W H CS NC { hs vs wb hb q*64 coef*(wb*hb*64) }*NC
+     xf <path> <n> { op perfect trim gray crop cw cwset ch chset cx cxset cy cyset }*n | <image>
+     <image> = W H CS NC { 0 | 1 q*64 }*4 (final slot contents) { hs vs wb hb tq q*64 (latched table) coef*(wb*hb*64) }*NC
    path: tj (tj3Transform wrapper, n >= 1) | jt (jtransform_* sequence, n = 1)
    prints  "err <name>"  or  "ok | <image dump> | <image dump> ..."                      *)
 open X_c06
@@ -7,15 +8,17 @@ let op_of = function 0 -> XNone | 1 -> XFlipH | 2 -> XFlipV | 3 -> XTranspose | 
                    | 5 -> XRot90 | 6 -> XRot180 | _ -> XRot270
 let oset_of = function 0 -> OUnset | 1 -> OPos | _ -> ONeg
 let err_name = function ENotPerfect -> "NotPerfect" | EBadCrop -> "BadCrop" | ECropExt -> "CropExt"
-                      | ENoGray -> "NoGray" | EAlign -> "Align"
+                      | ENoGray -> "NoGray" | EAlign -> "Align" | EQuantReuse -> "QuantReuse"
 let sentinel = List.init 64 (fun _ -> z_of_int 5555)
 
 let parse_image (a : int array) =
   let pos = ref 0 in
   let next () = let v = a.(!pos) in incr pos; v in
   let w = next () in let h = next () in let cs = next () in let nc = next () in
+  let slots = List.init 4 (fun _ -> 0) |> List.map (fun _ ->
+    if next () = 1 then List.init 64 (fun _ -> 0) |> List.map (fun _ -> z_of_int (next ())) else []) in
   let comps = List.init nc (fun _ -> 0) |> List.map (fun _ ->
-    let hs = next () in let vs = next () in let wb = next () in let hb = next () in
+    let hs = next () in let vs = next () in let wb = next () in let hb = next () in let tq = next () in
     let q = List.init 64 (fun _ -> 0) |> List.map (fun _ -> z_of_int (next ())) in
     let blocks = Array.make (wb * hb) [] in
     for i = 0 to wb * hb - 1 do
@@ -26,14 +29,19 @@ let parse_image (a : int array) =
     let f x y =
       let xi = int_of_z x and yi = int_of_z y in
       if xi >= 0 && xi < wb && yi >= 0 && yi < hb then blocks.(yi * wb + xi) else sentinel in
-    { c_hs = z_of_int hs; c_vs = z_of_int vs; c_wb = z_of_int wb; c_hb = z_of_int hb; c_q = q; c_blk = f }) in
-  { i_w = z_of_int w; i_h = z_of_int h; i_cs = z_of_int cs; i_comps = comps }
+    { c_hs = z_of_int hs; c_vs = z_of_int vs; c_wb = z_of_int wb; c_hb = z_of_int hb; c_tq = z_of_int tq; c_q = q; c_blk = f }) in
+  { i_w = z_of_int w; i_h = z_of_int h; i_cs = z_of_int cs; i_slots = slots; i_comps = comps }
 
 let dump_image b im =
   Buffer.add_string b (Printf.sprintf "%d %d %d %d" (int_of_z im.i_w) (int_of_z im.i_h) (int_of_z im.i_cs) (List.length im.i_comps));
+  List.iteri (fun si q ->
+    if q <> [] && List.exists (fun c -> int_of_z c.c_tq = si) im.i_comps then begin
+      Buffer.add_string b " 1";
+      List.iter (fun v -> Buffer.add_char b ' '; Buffer.add_string b (string_of_int (int_of_z v))) q
+    end else Buffer.add_string b " 0") im.i_slots;
   List.iter (fun c ->
     let wb = int_of_z c.c_wb and hb = int_of_z c.c_hb in
-    Buffer.add_string b (Printf.sprintf " %d %d %d %d" (int_of_z c.c_hs) (int_of_z c.c_vs) wb hb);
+    Buffer.add_string b (Printf.sprintf " %d %d %d %d %d" (int_of_z c.c_hs) (int_of_z c.c_vs) wb hb (int_of_z c.c_tq));
     List.iter (fun v -> Buffer.add_char b ' '; Buffer.add_string b (string_of_int (int_of_z v))) c.c_q;
     for y = 0 to hb - 1 do for x = 0 to wb - 1 do
       let blk = c.c_blk (z_of_int x) (z_of_int y) in
